@@ -153,7 +153,111 @@ def validate(ctx, items, mine, label, nproc=12):
             ctx.traces_total += 1
 
 
+ACC_INVS = ["TypeOK", "PartialIsDef", "ResultIsDef", "EmptyIsZero", "EmptyCollectionQuirk", "OneElementCollectionStaysAList", "NonNegativeBounded",
+            "Additive", "OrderFree", "ZeroWeightNothing", "SkewFormIrrelevant", "CodedMassIsDefMass"]
+ACC_GEOMS = [dict(RX=2, RY=2, PS=1, KW=1, KH=2), dict(RX=2, RY=3, PS=2, KW=2, KH=1), dict(RX=3, RY=2, PS=1, KW=4, KH=2)]
+
+
+def accumulate_cases(calls, results, geom, mine):
+    den = 4 * geom["KW"] * geom["KH"]
+    cases = []
+    for call, r in zip(calls, results):
+        if "kind" not in r:
+            cases.append(None); continue
+        lat, imgs_ = 1, []
+        for im in r["imgs"]:
+            rows = []
+            for row in im:
+                rr = []
+                for x in row:
+                    v = Fraction(unfl(x)) * den if x not in ("nan", "inf", "-inf") else None
+                    if v is None or v.denominator != 1 or abs(v) > 10 ** 8:
+                        lat, v = 0, Fraction(0)
+                    rr.append(int(v))
+                rows.append(rr)
+            imgs_.append(rows)
+        cases.append(dict(mine=mine, argkind=call["argkind"], arg=call["arg"], skew=int(call["skew"]), njobs=call.get("njobs", 0), kind=r["kind"], imgs=imgs_, lattice=lat))
+    return cases
+
+
+def model_and_replay(ctx, mine, quick):
+    """M: ImageAccumulate.tla (transform as a state machine) model-checked; R: every call of the model's initial-state set (dumped by
+    TLC with the expected result) replayed on a real imager of the same geometry, serially and -- for a sample -- through joblib workers;
+    the recorded results are decided by TraceAccumulate.tla with the model's own definitional operators."""
+    import json, os
+    from .common import mktempdir, run_driver_parallel as rdp
+    rng = ctx.rng
+    # C04 is about the pixel values of one diagram (more points, one diagram); C11 about collections and call styles
+    cst = dict(ACC_GEOMS[0], MaxC=2, MaxPts=3, MaxDgms=1) if (mine == "C04" and quick) else dict(ACC_GEOMS[0], MaxC=2, MaxPts=2, MaxDgms=2)
+    r = tlc.run_tlc("ImageAccumulate", workers=16, constants=cst, invariants=ACC_INVS, properties=["ArgUntouched"], heap="8g", timeout=7200)
+    ctx.model("ImageAccumulate (transform as a state machine) %s" % cst, r, constants=cst)
+    if not quick:
+        for cst in (dict(ACC_GEOMS[1], MaxC=3, MaxPts=2, MaxDgms=2), dict(ACC_GEOMS[2], MaxC=2, MaxPts=3, MaxDgms=2)):
+            r = tlc.run_tlc("ImageAccumulate", workers=16, constants=cst, invariants=ACC_INVS, properties=["ArgUntouched"], heap="10g", timeout=14400)
+            ctx.model("ImageAccumulate %s" % cst, r, constants=cst)
+    if mine == "C11":
+        cst = dict(ACC_GEOMS[0], MaxC=1, MaxPts=2, MaxDgms=2)
+        r = tlc.run_tlc("ImageAccumulate", workers=8, spec="FairSpec", constants=cst, properties=["Termination", "ArgUntouched"], heap="4g")
+        ctx.model("ImageAccumulate liveness under WF (every call returns)", r, constants=cst)
+    nokv = 0
+    for gi, geom in enumerate(ACC_GEOMS if not quick else ACC_GEOMS[:2]):
+        dump = os.path.join(mktempdir(prefix="accdump_"), "dump.json")
+        cst = dict(geom, MaxC=2 if gi != 1 else 3, MaxPts=2, MaxDgms=2 if (gi == 0 and not (mine == "C04" and quick)) else 1)
+        r = tlc.run_tlc("ImageAccumulate", workers=1, env={"DUMP_FILE": dump}, init="DumpInit", nxt="Next", constants=cst, heap="6g", timeout=3600)
+        if r["error"] or not os.path.exists(dump):
+            ctx.machinery_errors.append("ImageAccumulate dump failed:\n" + r["out"][-1500:]); return
+        dumped = json.load(open(dump)); os.remove(dump)
+        ctx.extra.setdefault("spec_generated_transform_calls", []).append(dict(geometry=geom, calls=len(dumped)))
+        rng.shuffle(dumped)
+        sel = dumped[: (1500 if quick else 20000)]
+        calls = [dict(argkind=c["argkind"], arg=c["arg"], skew=int(c["skew"]), njobs=0) for c in sel]
+        # the same collections through joblib workers (process start-up is slow: a sample)
+        colls = [c for c in calls if c["argkind"] == "coll" and len(c["arg"]) >= 1]
+        calls += [dict(c, njobs=2) for c in colls[: (40 if quick else 400)]]
+        chunks_ = [calls[i:i + 60] for i in range(0, len(calls), 60)]
+        res, _ = rdp("accumulate.py", [dict(geom=geom, calls=ch) for ch in chunks_], nproc=12)
+        flat = []
+        for ch, rr in zip(chunks_, res):
+            flat += rr["calls"] if "calls" in rr else [{"raised": str(rr)[:200]}] * len(ch)
+        cases = accumulate_cases(calls, flat, geom, mine)
+        for call, c, rr in zip(calls, cases, flat):
+            if c is None:
+                ctx.failure({"clause": mine + "-no-result", "detail": rr.get("raised")}, {"kind": "accumulate", "geom": geom, "call": call})
+        good = [(call, c) for call, c in zip(calls, cases) if c is not None]
+        verdicts, st = tlc.run_batch("TraceAccumulate", [c for _, c in good], nproc=12, constants=geom, heap="3g")
+        ctx.extra.setdefault("trace_validation_runs", []).append(dict(label="R-accumulate", geometry=geom, cases=len(good), tlc_states=st["states"], wall_s=round(st["wall"], 1)))
+        for (call, c), v in zip(good, verdicts):
+            npts = len(call["arg"]) if call["argkind"] == "one" else sum(len(d) for d in call["arg"])
+            ctx.count(1, key=("acc", gi, json.dumps(call)), nontrivial=npts >= 2)
+            if v[2] == "ok":
+                ctx.ok_trace(); nokv += 1
+                if nokv <= 2:
+                    ctx.sample({"geometry": geom, "call": call, "result_kind": c["kind"], "numerators_over_%d" % (4 * geom["KW"] * geom["KH"]): c["imgs"][:2], "verdict": "ok"}, cap=8)
+            elif v[3].startswith(mine) or v[3] == "value-off-lattice":
+                ctx.failure({"clause": v[3], "call_style": ("one diagram" if call["argkind"] == "one" else "collection") + (", n_jobs=%d" % call["njobs"] if call["njobs"] else "")},
+                            {"kind": "accumulate", "geom": geom, "call": call})
+            else:
+                ctx.extra["failures_owned_by_other_property"] = ctx.extra.get("failures_owned_by_other_property", 0) + 1
+                ctx.traces_total += 1
+
+
+def replay_accumulate(ctx, rec, mine):
+    from .common import run_driver
+    c = rec["case"]
+    rr = run_driver("accumulate.py", {"jobs": [dict(geom=c["geom"], calls=[c["call"]])]})["results"][0]
+    cases = accumulate_cases([c["call"]], rr.get("calls", [{}]), c["geom"], mine)
+    if cases[0] is None:
+        ctx.failure({"clause": mine + "-no-result"}, c); return
+    v, _ = tlc.run_batch("TraceAccumulate", cases, nproc=1, constants=c["geom"])
+    if v[0][2] == "ok":
+        ctx.ok_trace()
+    else:
+        ctx.failure({"clause": v[0][3]}, c)
+
+
 def replay(ctx, rec, mine):
+    if rec["case"].get("kind") == "accumulate":
+        return replay_accumulate(ctx, rec, mine)
     c = rec["case"]
     e = next(x for x in EXACT_EMBS if x.name == c["emb"])
     it = dict(g=c["g"], dgms=c["dgms"], skews=c.get("skews", [1] * len(c["dgms"])), names=c.get("names", [str(i) for i in range(len(c["dgms"]))]), job=c["job"], emb=e)
